@@ -29,8 +29,9 @@
 (*                       record into the changes                           *)
 (*   OidProbeByLoad      new_oid decides presence by loading the current   *)
 (*                       revision (an un-created object does not load)     *)
-(*   PackFlagMissing     pack() reads an attribute that only exists when   *)
-(*                       the demo storage created its changes itself       *)
+(*   PackAsCode          pack() reads an attribute that only exists when   *)
+(*                       the demo storage created its changes itself, and  *)
+(*                       then garbage-collects the changes alone           *)
 (* `obs` (the answer of every query, transcription) and `dev` (where obs   *)
 (* differs from the meaning ObsTable(base \o changes), and why) are        *)
 (* functions of the other variables; they are printed with every state.    *)
@@ -48,7 +49,7 @@ CONSTANTS BaseKind, ChangesKind,   \* "file" | "mapping"
           Cls,         \* class kind per oid: "plain" | "merge"
           Temporary,   \* the demo storages create their own changes storage (changes=None: a MappingStorage)
           PrintObs,    \* compute obs / dev with every state (behaviours for replay)
-          TidFromChangesOnly, UndoUncreates, OidProbeByLoad, PackFlagMissing
+          TidFromChangesOnly, UndoUncreates, OidProbeByLoad, PackAsCode
 
 VARIABLES layers,      \* sequence of histories
           inst,        \* per layer: [lastTs, ltid, lastPack, issued] (instance state of that storage / demo)
@@ -74,6 +75,8 @@ TopH == layers[Top]
 RECURSIVE CatL(_, _)
 CatL(L, n) == IF n = 0 THEN <<>> ELSE CatL(L, n - 1) \o L[n]
 Cat(L) == CatL(L, Len(L))
+\* the layer that holds the i-th transaction of Cat(L)
+LayerOf(L, i) == MinS({n \in 1..Len(L) : i <= Len(CatL(L, n))})
 Increasing(H) == \A i \in 1..(Len(H) - 1) : H[i].tid < H[i + 1].tid
 \* tids strictly increase over the whole stack (C04's TidsStrictlyIncrease for the demo)
 SeamOrdered(L) == Increasing(Cat(L))
@@ -230,16 +233,12 @@ DataRec(o, d, base, resolved) == [oid |-> o, op |-> "data", d |-> d, back |-> 0,
 BackRec(o, b) == [oid |-> o, op |-> "back", d |-> NoD, back |-> b, base |-> -1, res |-> FALSE]
 ZeroRec(o, base) == [oid |-> o, op |-> "zero", d |-> NoD, back |-> 0, base |-> base, res |-> FALSE]
 
-\* the largest tid below level n (what a layer-spanning tid source would have to respect)
-RECURSIVE MaxTidBelow(_)
-MaxTidBelow(n) == IF n <= 1 THEN 0
-                  ELSE LET m == MaxTidBelow(n - 1)
-                           l == IF inst[n - 1].lastTs > LastTid(layers[n - 1]) THEN inst[n - 1].lastTs ELSE LastTid(layers[n - 1])
-                       IN IF l > m THEN l ELSE m
 BeginTid(clk) ==
   LET own == IF IsFile THEN inst[Top].lastTs ELSE LastTid(TopH)      \* BaseStorage._ts / maxKey(transactions)
-      floor == IF TidFromChangesOnly \/ MaxTidBelow(Top) <= own THEN own ELSE MaxTidBelow(Top)
-  IN NewTid(clk, floor)
+      \* repaired: the demo storage passes tid = newTid(max(base.lastTransaction(), changes.lastTransaction()))
+      below == QLast(inst, Top - 1)
+      span == IF below > inst[Top].ltid THEN below ELSE inst[Top].ltid
+  IN IF TidFromChangesOnly \/ ~IsDemo THEN NewTid(clk, own) ELSE NewTid(clk, span)
 
 \* tpc_begin: DemoStorage hands the call to the changes storage (the clock is read there)
 Begin(c, m, clk) ==
@@ -336,11 +335,14 @@ UndoOne(H, below, S, i, j) ==
       oldD == DataAt(H, i, o)
   IN IF loadFail THEN [k |-> "fail"]
      ELSE IF differ /\ pre = Null THEN [k |-> "fail"]
-     ELSE IF pre = Null THEN [k |-> "rec", rec |-> IF ~UndoUncreates /\ below[o].k = "rev"
-                                                     THEN DataRec(o, below[o].d, -1, FALSE) ELSE ZeroRec(o, -1)]
-     ELSE IF ~differ THEN [k |-> "rec", rec |-> BackRec(o, H[pre[1]].tid)]
+     \* repaired: when the changes un-create an object that the layers below hold (and that is current in the
+     \* changes), the demo storage stores the state from below on top of the "does not exist" record
+     ELSE IF pre = Null THEN [k |-> "rec", recs |-> IF ~UndoUncreates /\ below[o].k = "rev" /\ SGetTid(H, o).k = "tid"
+                                                      THEN <<ZeroRec(o, -1), DataRec(o, below[o].d, -1, FALSE)>>
+                                                      ELSE <<ZeroRec(o, -1)>>]
+     ELSE IF ~differ THEN [k |-> "rec", recs |-> <<BackRec(o, H[pre[1]].tid)>>]
      ELSE IF preD = Gone \/ oldD = Gone \/ Cls[o] # "merge" THEN [k |-> "fail"]
-     ELSE [k |-> "rec", rec |-> DataRec(o, MergeD(oldD, curD, preD), -1, TRUE)]
+     ELSE [k |-> "rec", recs |-> <<DataRec(o, MergeD(oldD, curD, preD), -1, TRUE)>>]
 
 RECURSIVE UndoFold(_, _, _, _, _, _, _)
 UndoFold(H, below, S, i, j, out, fails) ==
@@ -348,7 +350,7 @@ UndoFold(H, below, S, i, j, out, fails) ==
   ELSE LET o == H[i].recs[j].oid
            u == UndoOne(H, below, S, i, j)
        IN IF u.k = "fail" THEN UndoFold(H, below, S, i, j + 1, out, fails \cup {o})
-          ELSE UndoFold(H, below, S, i, j + 1, Append(out, u.rec), fails \ {o})
+          ELSE UndoFold(H, below, S, i, j + 1, out \o u.recs, fails \ {o})
 
 \* DemoStorage.undo *is* changes.undo: transactions of the lower layers are not found
 Undo(c, t) ==
@@ -413,7 +415,8 @@ NewOid(n0) ==
 
 \* DemoStorage.pack(t, referencesf, gc): g is the gc argument, "none" | "false" | "true".
 \*  - changes created by the demo storage itself (always a MappingStorage): changes.pack(t, referencesf[, gc=gc]),
-\*    so gc=None means the MappingStorage default, garbage collection over the changes alone
+\*    so gc=None means the MappingStorage default, garbage collection over the changes alone - which
+\*    fails (KeyError) as soon as a reference leads into the base or the root lives there
 \*  - changes passed in: gc=True is refused, otherwise changes.pack(t, referencesf, gc=False)
 \*    (the code as it is fails before that: the flag it reads was never set)
 PackT(sec) == sec * K + K - 1
@@ -422,11 +425,13 @@ Pack(sec, g) ==
   /\ IsDemo /\ txn = NoTxn /\ npacks < MaxPack /\ npacks' = npacks + 1
   /\ sec \in 0..(MaxClock + 1) /\ g \in GcArgs
   /\ LET T == PackT(sec)
-         r == IF ~Temporary /\ PackFlagMissing THEN [out |-> "AttributeError", h |-> TopH]
-              ELSE IF ~Temporary /\ g = "true" THEN [out |-> "TypeError", h |-> TopH]
+         \* repaired: the flag exists, and only a demo storage without a base collects garbage
+         ownGc == PackAsCode /\ Temporary
+         r == IF ~Temporary /\ PackAsCode THEN [out |-> "AttributeError", h |-> TopH]
+              ELSE IF ~ownGc /\ g = "true" THEN [out |-> "TypeError", h |-> TopH]
               ELSE IF OidsOf(TopH) = {} THEN [out |-> "empty", h |-> TopH]
               ELSE IF IsFile THEN FilePack(TopH, T, FALSE)
-              ELSE MappingPack(TopH, T, Temporary /\ g # "false", inst[Top].lastPack)
+              ELSE MappingPack(TopH, T, ownGc /\ g # "false", inst[Top].lastPack)
          \* MappingStorage sets _last_pack before it does anything else
          mark == ~IsFile /\ r.out \in {"ok", "KeyError"}
      IN /\ layers' = [layers EXCEPT ![Top] = r.h]
@@ -551,7 +556,10 @@ ConflictAcrossLayers ==
         \* (a pack may have removed the revision the writer started from)
         (r.op = "data" /\ r.base >= 0 /\ \A n \in 1..Len(inst) : r.base > inst[n].lastPack) =>
            LET p == PrevPos(M, i, r.oid) IN
-           IF ~r.res THEN r.base = (IF p = 0 THEN 0 ELSE M[p].tid)
+           \* an object that a lower layer holds as "does not exist" (its creation was undone there) is a new
+           \* object for the demo storage: whatever serial the writer names, nothing is lost
+           IF p # 0 /\ LayerOf(layers, p) < LayerOf(layers, i) /\ DataAt(M, p, r.oid) = Gone THEN TRUE
+           ELSE IF ~r.res THEN r.base = (IF p = 0 THEN 0 ELSE M[p].tid)
            ELSE /\ p # 0 /\ r.d.v[1] = "M"
                 /\ r.d.v[2] = LoadSerial(M, r.oid, r.base).d.v
                 /\ r.d.v[3] = DataAt(M, p, r.oid).v
